@@ -276,6 +276,35 @@ def retention_history_indexed():
         del obj, owner, mut
     measure('after %d blocks inserting, referencing and evicting 2 kB entries' % n)
     if not fails:
+        # the table switched off and on again in every block (size update to 0, then to 4096), then a literal with a fresh
+        # large name and value; and entries pushed out by ONE oversized field
+        # each way of emptying the table in a phase of its own (one way must not clean up after another)
+        for phase, what in ((0, 'the table is switched off and on again (size update 0, then 4096) at the start of every block'),
+                            (2, 'the table is shrunk to 40 and raised again at the start of every block'),
+                            (1, 'every block ends with one oversized field'),
+                            (3, 'the application assigns header_table_size = 0 and 4096 between blocks')):
+            for j in range(200):
+                name = (b'n%d%05d-' % (phase, j)) * 200           # 1.6 kB, different every time
+                lit = b'\x40' + int_octets(len(name), 7) + name + b'\x01v'
+                if phase == 0:
+                    blk = b'\x20\x3f\xe1\x1f' + lit
+                elif phase == 1:
+                    blk = lit + b'\x40\x01x' + int_octets(5000, 7) + b'y' * 5000
+                elif phase == 2:
+                    blk = b'\x3f\x09\x3f\xe1\x1f' + lit + b'\xbe'
+                else:
+                    d.header_table_size = 0
+                    d.header_table_size = 4096
+                    blk = lit
+                try:
+                    d.decode(blk, raw=bool(j % 2))
+                except HPACKDecodingError:
+                    pass
+                n += 1
+            measure('after 200 blocks that insert a fresh 1.6 kB name while ' + what + ',')
+            if fails:
+                break
+    if not fails:
         try:
             d.max_allowed_table_size = 1 << 16
             d.decode(b'\x3f\xe1\xff\x03')                    # table raised to 64 KiB ...
